@@ -44,6 +44,7 @@ structure CharInfo where
   width : Nat
   upper : Text
   lower : Text
+  swidth : Nat
 deriving Repr
 
 abbrev CharTable := List CharInfo
@@ -51,10 +52,13 @@ abbrev CharTable := List CharInfo
 def CharTable.find (t : CharTable) (c : Char) : Option CharInfo :=
   List.find? (fun i => i.cp == c.toNat) t
 
-/-- `charinfo <cp> <alnum> <ws> <ctrl> <gcb> <width> <upper> <lower>` -/
+/-- `charinfo <cp> <alnum> <ws> <ctrl> <gcb> <width> <upper> <lower> <swidth>`:
+    `width` is `UnicodeWidthChar::width` (0 for controls), `swidth` the `UnicodeWidthStr::width`
+    of the one-character string. -/
 def parseCharInfo (f : List String) : Option CharInfo :=
   match f with
-  | [cp, an, ws, ct, gcb, w, up, lo] => do
+  | [cp, an, ws, ct, gcb, w, up, lo, sw] => do
+    let sw ← parseNat sw
     let cp ← parseNat cp
     let an ← parseBool an
     let ws ← parseBool ws
@@ -62,7 +66,7 @@ def parseCharInfo (f : List String) : Option CharInfo :=
     let w ← parseNat w
     let up ← parseText up
     let lo ← parseText lo
-    pure { cp, alnum := an, ws, ctrl := ct, gcb, width := w, upper := up, lower := lo }
+    pure { cp, alnum := an, ws, ctrl := ct, gcb, width := w, upper := up, lower := lo, swidth := sw }
   | _ => none
 
 def CharTable.ws (t : CharTable) (c : Char) : Bool := ((t.find c).map (·.ws)).getD false
